@@ -129,6 +129,14 @@ LSetSlice(l, a, b, vs) ==
   IN IF bad = 0 THEN Checked(l, full)
      ELSE R(FALSE, IF SizeOK(Len(full.xs)) THEN part(bad - 1) ELSE l,
             {l} \cup {part(m) : m \in {m \in 1..(bad - 1) : SizeOK(Len(part(m).xs))}})
+\* l *= n appends n-1 copies: a batch of (already valid) elements; when the result would be too long an
+\* admissible outcome keeps any prefix of them that fits (as coded: whole copies, one extend per copy)
+LTimes(l, n) ==
+  LET full == ListV(Times(l.xs, n))
+      extra == Times(l.xs, n - 1)
+      kmax == CHOOSE k \in 1..n : k * Len(l.xs) <= Hi /\ \A h \in (k + 1)..(n - 1) : h * Len(l.xs) > Hi
+  IN IF n <= 1 \/ SizeOK(Len(full.xs)) THEN Checked(l, full)
+     ELSE R(FALSE, ListV(Times(l.xs, kmax)), {ListV(l.xs \o SubSeq(extra, 1, m)) : m \in {m \in 0..Len(extra) : Len(l.xs) + m <= Hi}})
 LReb2(l, i, v, j, w) ==                                                                      \* two replacements, i < j
   LET ri == ListV([l.xs EXCEPT ![i + 1] = v])
       rj == ListV([l.xs EXCEPT ![j + 1] = w])
@@ -225,7 +233,7 @@ LAppend == "lins" \in Acts /\ HasList /\ \E v \in P(ElemPool) : StepL(LInsAt(The
 LInsert == "lins" \in Acts /\ HasList /\ \E i \in P(0..Len0), v \in P(ElemPool) : StepL(LInsAt(TheList, i, v, FALSE), <<"LInsert", i, v>>)
 LExtendA == "lins" \in Acts /\ HasList /\ \E vs \in P(Seqs2(ElemPool)) : StepL(LExtend(TheList, vs), <<"LExtend", vs>>)
 LIadd == "inplace" \in Acts /\ HasList /\ \E vs \in P(Seqs2(ElemPool)) : StepL(LExtend(TheList, vs), <<"LIadd", vs>>)
-LImul == "inplace" \in Acts /\ HasList /\ \E n \in P(0..3) : StepL(Checked(TheList, ListV(Times(TheList.xs, n))), <<"LImul", n>>)
+LImul == "inplace" \in Acts /\ HasList /\ \E n \in P(0..3) : StepL(LTimes(TheList, n), <<"LImul", n>>)
 
 Next == \/ DSet \/ DSetAttr \/ OSetAttr \/ DRebind1 \/ ORebind1 \/ DDel \/ DPop \/ DClear \/ DSetDefault
         \/ DUpdate \/ DIor \/ DRebind2 \/ ORebind2
@@ -264,7 +272,7 @@ ConformsTo(c, partial) ==
 Conforms == ConformsTo(root, pok)                       \* INVARIANT: never a state the schema rejects
 AltsConform == \A c \in alts : ConformsTo(c, pok)       \* ... whichever admissible prefix a rejected batch kept
 
-IsBatch(a) == a[1] \in {"DUpdate", "DIor", "Rebind2", "LRebind2", "LExtend", "LIadd", "LSetSlice"}
+IsBatch(a) == a[1] \in {"DUpdate", "DIor", "Rebind2", "LRebind2", "LExtend", "LIadd", "LSetSlice", "LImul"}
 \* a rejected write is not stored (a batch may have kept earlier valid elements: one of `alts`)
 RejectedWriteNoStore == [][out' \in {"err", "any"} => /\ root \in alts'
                                            /\ root' \in alts'
